@@ -32,6 +32,11 @@ def _check(case):
             res = core.call(qf.resize, op[1], budget=BUDGET * 4)
             if res[0] == "err" and res[1] != "!QuotientFilterError":
                 return f"step {step}: resize({op[1]}) {'did not terminate' if res[1] == '!DIVERGED' else 'raised ' + res[1]}"
+        elif kind == "selfmerge":
+            # merging a filter into itself is a legal call: the union of a set with itself is that set
+            res = core.call(qf.merge, qf, budget=BUDGET * 4)
+            if res[0] == "err" and res[1] != "!QuotientFilterError":
+                return f"step {step}: merge of the filter with itself {'did not terminate' if res[1] == '!DIVERGED' else 'raised ' + res[1]}"
         elif kind == "merge":
             other = QuotientFilter(quotient=op[1], auto_expand=True)
             for h in op[2]:
@@ -86,6 +91,8 @@ def _gen(rng, tiny=True):
             ops.append(("rem", rng.choice(pool)))
         elif x < 0.94:
             ops.append(("resize", rng.choice([None, q, q + 1, q + 2, max(3, q - 1)])))
+        elif x < 0.955:
+            ops.append(("selfmerge",))
         else:
             ops.append(("merge", rng.choice([3, 4, q]), [rng.choice(pool) if rng.random() < 0.6 else rng.randrange(1 << 32) for _ in range(rng.randint(0, 5))]))
     return {"q": q, "auto": rng.random() < 0.5, "ops": ops, "probes": [h() for _ in range(6)] + [rng.randrange(1 << 32) for _ in range(3)]}
@@ -102,16 +109,36 @@ def _shrink(case):
     return dict(case, ops=ops)
 
 
+def _gen_selfmerge(rng):
+    """directed: an auto-expanding filter filled to just under its size (load >= the resize threshold, so the
+    next insertion resizes), then merged into itself — the resize happens while the filter's own hashes are
+    being enumerated"""
+    q = rng.choice([3, 3, 4, 4, 5, 6])
+    r = 32 - q
+    n = 1 << q
+    target = rng.randint((85 * n + 99) // 100, n - 1)
+    base = rng.randrange(n)
+    hs = set()
+    while len(hs) < target:
+        quot = rng.randrange(n) if rng.random() < 0.5 else (base + rng.randrange(3)) % n
+        hs.add((quot << r) | rng.randrange(1 << r))
+    ops = [("add", h) for h in hs]
+    rng.shuffle(ops)
+    ops.append(("selfmerge",))
+    return {"q": q, "auto": True, "ops": ops, "probes": [rng.randrange(1 << 32) for _ in range(3)]}
+
+
 def run(tier, seed, deep, hints):
     rng = core.seeded(seed, "search-C04")
     n = 250 if tier == "quick" else 6000
     if deep:
         n *= 4
     findings, evals, distinct, sample, seen = [], 0, set(), None, set()
-    for i in range(n):
+    n_directed = 6 * n
+    for i in range(n + n_directed):
         if core.search_expired():
             break
-        case = _gen(rng, tiny=(i % 6 != 5))
+        case = _gen_selfmerge(rng) if i >= n else _gen(rng, tiny=(i % 6 != 5))
         evals += 1
         distinct.add(repr(case["ops"]))
         sample = case
@@ -121,7 +148,7 @@ def run(tier, seed, deep, hints):
             bad = _check(case) or bad
             tag = "diverged" if "terminate" in bad else ("elements_added" if "elements_added" in bad else ("raised" if "raised" in bad else ("membership" if "check_alt" in bad else "hashes")))
             full = sum(1 for o in case["ops"] if o[0] == "add") >= (1 << case["q"]) and not case["auto"]
-            sig = {"failure": tag, "table_full": full}
+            sig = {"failure": tag, "table_full": full, "selfmerge": any(o[0] == "selfmerge" for o in case["ops"])}
             if repr(sig) in seen:
                 continue
             seen.add(repr(sig))
